@@ -399,6 +399,42 @@ fn decorated(body: &str) -> Vec<String> {
     out
 }
 
+/// words that mean something to the layout of the layers / platform / buildpack directories: file suffixes, file and directory names
+const LAYOUT_WORDS: &[&str] = &[".toml", ".json", ".sbom", ".sbom.cdx.json", ".sbom.spdx.json", ".sbom.syft.json", ".cdx", ".tar", ".tgz", ".lock", ".d", "env", "env.build", "env.launch",
+    "exec.d", "bin", "lib", "store.toml", "launch.toml", "build.toml", "plan.toml", "group.toml", "metadata", "layers", "cache", "config", "app", "sbom"];
+const LAYOUT_STEMS: &[&str] = &["a", "web", "my-layer_1"];
+const LAYOUT_JOINERS: &[&str] = &["", ".", "-", "_", "/"];
+/// lower / upper / capitalised (first letter) spelling of a word
+fn three_cases(w: &str) -> Vec<String> {
+    let mut cap = String::new();
+    let mut done = false;
+    for c in w.chars() { if !done && c.is_ascii_alphabetic() { cap.push(c.to_ascii_uppercase()); done = true; } else { cap.push(c); } }
+    let mut v = vec![w.to_string(), w.to_uppercase(), cap];
+    v.dedup();
+    v
+}
+/// identifier candidates built from the layout words: each word (lower / upper / capitalised) alone, as suffix and as prefix of each stem
+/// (glued directly and by `.` `-` `_` `/`; a word that starts with a dot is also glued directly only once), between two stems, around a
+/// stem (word + stem + word), and every ordered pair of words glued directly and by `.` and `/`
+fn layout_candidates() -> Vec<String> {
+    let mut out: Vec<String> = vec![];
+    for w in LAYOUT_WORDS {
+        for v in three_cases(w) {
+            out.push(v.clone());
+            for st in LAYOUT_STEMS {
+                for j in LAYOUT_JOINERS { out.push(format!("{st}{j}{v}")); out.push(format!("{v}{j}{st}")); }
+                out.push(format!("{v}{st}{v}"));
+                out.push(format!("{st}{v}{}", LAYOUT_STEMS[0]));
+                out.push(format!("{st}.{v}.{}", LAYOUT_STEMS[1]));
+            }
+        }
+        for w2 in LAYOUT_WORDS { for j in ["", ".", "/"] { out.push(format!("{w}{j}{w2}")); } }
+    }
+    out.sort();
+    out.dedup();
+    out
+}
+
 const BOUNDARY: &[u64] = &[0, 1, 9, 10, 99, 4294967295, 4294967296, 9223372036854775807, 9223372036854775808, 18446744073709551614, 18446744073709551615];
 /// number-like components for version / API strings: canonical, leading zeros, signs, whitespace, overflow, empty
 const COMPONENTS: &[&str] = &["0", "1", "10", "007", "00", "01", "+1", "-1", "+0", " 1", "1 ", "", "1_0", "١", "1e3", "0x1",
@@ -471,6 +507,10 @@ fn generate(tier: &str, seed: u64, emit: &mut dyn FnMut(Case)) {
     for b in ["web", "PATH", "my-layer_1.x", "heroku/ruby", "a", "0", "Build", "io.buildpacks.stacks.jammy"] { special.extend(decorated(b)); }
     special.sort(); special.dedup();
     for k in &["layer", "process", "bpid", "execd"] { for s in &special { emit(single(k, s, "look-alike")); } }
+    // 2e. words of the directory layout (file suffixes, file and directory names of the layers / platform / buildpack directories) alone, as
+    //     suffix and prefix of stems, in three case spellings, and in pairs, on all four identifier kinds (every entry path of `run_case`)
+    let layout = layout_candidates();
+    for k in &["layer", "process", "bpid", "execd"] { for s in &layout { emit(single(k, s, "layout-word")); } }
     // 2d. version / API strings decorated the same way (start, end, both, middle) and after / before each dot
     let mut vdecor: Vec<(&str, String)> = vec![];
     for b in ["1.2.3", "0.0.0", "10.20.30", "18446744073709551615.0.1"] {
@@ -567,6 +607,7 @@ fn generate(tier: &str, seed: u64, emit: &mut dyn FnMut(Case)) {
             lits.extend(case_alone.iter().cloned());
             for v in &case_alone { for a in ['a', 'Z', '0', '.', '-', '_', '/', ' '] { lits.push(format!("{a}{v}")); lits.push(format!("{v}{a}")); } }
             lits.extend(special.iter().cloned());
+            lits.extend(layout.iter().cloned());
             lits.sort();
             lits.dedup();
             for (k, _) in MACROS { for chunk in lits.chunks(1500) {
